@@ -10,6 +10,7 @@ package c09
 import (
 	"fmt"
 	"math"
+	"os"
 	"testing"
 	"time"
 
@@ -23,11 +24,12 @@ import (
 
 // Op is one step of the read-seeker history.
 type Op struct {
-	Op     string `json:"op"`             // seek | read | fail | damage | heal
+	Op     string `json:"op"`             // seek | read | fail | damage | heal | copy
 	Off    int64  `json:"off,omitempty"`  // seek: offset as passed; with Abs: the absolute target (offset = target - base(whence))
 	Whence int    `json:"wh,omitempty"`   // seek: io.SeekStart/Current/End (other values: invalid whence)
 	Abs    bool   `json:"abs,omitempty"`  // seek: Off is the absolute target position
-	Len    int    `json:"len,omitempty"`  // read: len(p)
+	Len    int    `json:"len,omitempty"`  // read: len(p); copy: n of io.CopyN / buffer size of io.CopyBuffer
+	Via    string `json:"via,omitempty"`  // copy: copy (io.Copy) | read (io.Copy that cannot see WriteTo) | buffer (io.CopyBuffer) | copyn (io.CopyN) | writerto
 	K      int    `json:"k,omitempty"`    // fail: the K-th next GetChunk of the store fails
 	V      int    `json:"v,omitempty"`    // damage/heal: index entry whose ID is damaged / restored in the store
 	Kind   string `json:"kind,omitempty"` // damage: short | long | one | empty (always a different LENGTH than the index entry)
@@ -365,7 +367,9 @@ func genReadLen(t *rapid.T, l *layout, label string) int {
 
 func genOp(t *rapid.T, l *layout) Op {
 	max := int64(l.sizes.Max)
-	switch rapid.SampledFrom([]string{"seek", "seek", "seek", "read", "read", "read", "read", "fail"}).Draw(t, "op") {
+	switch rapid.SampledFrom([]string{"seek", "seek", "seek", "seek", "read", "read", "read", "read", "read", "fail", "copy"}).Draw(t, "op") {
+	case "copy":
+		return genCopy(t, l)
 	case "seek":
 		if rapid.IntRange(0, 3).Draw(t, "raw") == 0 {
 			wh := rapid.SampledFrom([]int{1, 1, 1, 2, 2, 0, 3, -1}).Draw(t, "whence")
@@ -378,6 +382,24 @@ func genOp(t *rapid.T, l *layout) Op {
 	default:
 		return Op{Op: "read", Len: genReadLen(t, l, "rl")}
 	}
+}
+
+var copyVias = []string{"copy", "copy", "writerto", "read", "buffer", "copyn"}
+
+// genCopy draws a drain of the rest of the blob (or of Len bytes with io.CopyN).
+func genCopy(t *rapid.T, l *layout) Op {
+	op := Op{Op: "copy", Via: rapid.SampledFrom(copyVias).Draw(t, "via")}
+	switch op.Via {
+	case "buffer":
+		op.Len = rapid.SampledFrom([]int{1, 2, 3, 7, int(l.sizes.Max), 4096}).Draw(t, "cbuf")
+	case "copyn":
+		op.Len = genReadLen(t, l, "cn")
+		if rapid.IntRange(0, 3).Draw(t, "cnall") == 0 {
+			op.Len = int(l.length) + rapid.IntRange(-1, 1).Draw(t, "cnd")
+		}
+		op.Len = max(op.Len, 0)
+	}
+	return op
 }
 
 var damageKinds = []string{"short", "short", "long", "one", "empty"}
@@ -407,6 +429,19 @@ func genOpBlock(t *rapid.T, l *layout) []Op {
 		return []Op{{Op: "damage", V: pickVictim(t, l, "v"), Kind: rapid.SampledFrom(damageKinds).Draw(t, "dk")}}
 	case 1:
 		return []Op{{Op: "heal", V: rapid.IntRange(0, len(l.spans)-1).Draw(t, "v")}}
+	case 4: // a store failure (or a damaged chunk) somewhere in a copy of the rest, then carry on where it stopped
+		start := genTarget(t, l, "cs")
+		if start < 0 || start > l.length || rapid.Bool().Draw(t, "fromstart") {
+			start = 0
+		}
+		ops := []Op{{Op: "seek", Off: start, Abs: true}}
+		if rapid.IntRange(0, 3).Draw(t, "cdmg") == 0 {
+			v := pickVictim(t, l, "v")
+			ops = append(ops, Op{Op: "damage", V: v, Kind: rapid.SampledFrom(damageKinds).Draw(t, "dk")}, genCopy(t, l), Op{Op: "heal", V: v})
+		} else {
+			ops = append(ops, Op{Op: "fail", K: rapid.IntRange(1, max(1, min(len(l.spans), 6))).Draw(t, "k")}, genCopy(t, l))
+		}
+		return append(ops, Op{Op: "read", Len: rapid.SampledFrom([]int{1, 2, int(l.sizes.Max)}).Draw(t, "after")}, genCopy(t, l))
 	case 2, 3:
 		v := pickVictim(t, l, "v")
 		s := l.spans[v]
@@ -583,29 +618,31 @@ func genCase(t *rapid.T) Case {
 
 	if hx.Thorough() && rapid.Bool().Draw(t, "withcat") { // process spawns dominate the cost: half of the cases
 		c.Cat = rapid.SliceOfN(rapid.Custom(func(t *rapid.T) CatOp {
-			off := genTarget(t, &l, "co")
-			if off < 0 {
-				off = 0
-			}
-			if off > l.length+2 {
-				off = l.length + 2
-			}
+			// whole blob / --offset only / --length only / both
+			mode := rapid.IntRange(0, 3).Draw(t, "catmode")
+			var off int64
 			ln := 0
-			switch rapid.IntRange(0, 3).Draw(t, "cl") {
-			case 0:
-			case 1:
-				if rest := l.length - off; rest > 0 {
-					ln = int(rest) + rapid.IntRange(-1, 1).Draw(t, "cld")
+			if mode == 1 || mode == 3 {
+				off = genTarget(t, &l, "co")
+				if off < 0 {
+					off = 1
 				}
-			default:
-				ln = genReadLen(t, &l, "cln")
+				if off > l.length+2 {
+					off = l.length + 2
+				}
 			}
-			if ln < 0 {
-				ln = 0
+			if mode >= 2 {
+				switch rapid.IntRange(0, 2).Draw(t, "cl") {
+				case 0:
+					ln = int(l.length-off) + rapid.IntRange(-1, 1).Draw(t, "cld")
+				default:
+					ln = genReadLen(t, &l, "cln")
+				}
+				ln = max(ln, 1)
 			}
 			drop := -1
-			if len(l.spans) > 0 && rapid.IntRange(0, 3).Draw(t, "dropq") == 0 {
-				drop = rapid.IntRange(0, len(l.spans)-1).Draw(t, "drop")
+			if n := len(l.spans); n > 0 && rapid.Bool().Draw(t, "dropq") { // a chunk file removed: first / last / in the middle
+				drop = rapid.SampledFrom([]int{0, n - 1, n / 2, rapid.IntRange(0, n-1).Draw(t, "drop")}).Draw(t, "dropwhere")
 			}
 			return CatOp{Off: int(off), Len: ln, Drop: drop}
 		}), 0, 3).Draw(t, "cat")
@@ -623,7 +660,8 @@ var spec = &hx.Spec[Case]{
 		"FUSE section: NewIndexMountFS attached in-process (fs.NewNodeFS, no kernel mount), h handles, reads (off,size) issued from g goroutines, GetChunk faults at generated call numbers; " +
 		"store damage: Damage(entry v, kind) puts data of another LENGTH under v's ID into the (by default unverified) store, Heal(v) restores it, in the reader history and as barriers between FUSE request groups, with scenarios read-in-v refused -> read again in v -> heal -> read; " +
 		"one case in ten has an index entry that repeats another entry's ID with a different size (unreadable range); " +
-		"thorough: `desync cat -o -l` with an optionally removed chunk file); " +
+		"copy ops drain the rest of the blob from the current position through io.Copy (WriteTo when the reader has one), io.Copy over plain Read, io.CopyBuffer, io.CopyN or WriteTo directly, with store failures / damaged chunks during the copy; " +
+		"`desync cat` (needs $VERIF_DESYNC_BIN): a directed set in both tiers - whole blob, --offset only, --length only, both x chunk file removed at the first / a middle / the last chunk or not at all - and generated invocations in the thorough tier); " +
 		"non-trivial = the history has a correct read spanning >= 2 chunks after a backwards seek, or a read crossing a null-chunk boundary, or a successful read after a delivered store fault, or a read of an entry the reader/handle refused before (still damaged or healed); distinct by case content hash",
 	Assumptions: []string{
 		"oracle: the blob bytes and a cursor; chunk IDs computed with crypto/sha512 directly; content-defined cuts by the reference chunker",
@@ -632,6 +670,7 @@ var spec = &hx.Spec[Case]{
 		"a Seek beyond the end may either be refused (position unchanged) or accepted (later reads give 0 bytes and io.EOF)",
 		"store faults are attributed to FUSE reads by the goroutine that called GetChunk (the node is called synchronously)",
 		"cat with -l reaching beyond the end: stdout must be the exact remaining bytes, either exit status accepted",
+		"a copy that ends with a nil error (io.EOF for io.CopyN beyond the end) must have delivered every byte up to the end; with a store failure during the call an error is required unless the copy is complete; the cursor must be at the end of what was delivered",
 		"damage always changes the chunk's length (same-length damage in an unverified store is undetectable); a damaged chunk that the reader still has cached from before may be served; what counts is whether the store handed out damaged data during the call",
 		"an index entry whose size differs from the chunk stored under its ID has no right content: every read of its range must fail (after a correct prefix); a larger-than-real such entry is generated only as the last entry",
 	},
@@ -639,6 +678,8 @@ var spec = &hx.Spec[Case]{
 		"blob:empty", "blob:single-chunk", "blob:null-run", "blob:repeated-id", "blob:one-byte-chunk", "blob:tiled", "blob:content-defined",
 		"seek:refused", "seek:backward", "seek:to-end", "read:spans-chunks-after-backseek", "read:crosses-null", "read:at-eof", "read:to-eof",
 		"fault:delivered", "read:after-fault",
+		"op:copy", "op:copy:complete", "op:copy:fault-delivered", "op:copy:fault-after-prefix",
+		"cat:whole", "cat:offset-only", "cat:length-only", "cat:offset+length", "cat:whole:fault-first", "cat:whole:fault-midway", "cat:whole:fault-last", "cat:offset-only:fault-midway",
 		"damage:wrong-length", "damage:delivered", "reread-after-refusal", "reread-after-heal", "fuse:damage-delivered", "fuse:reread-after-refusal", "fuse:reread-after-heal",
 		"index:same-id-other-size", "read:mis-sized-entry",
 		"fuse:concurrent", "fuse:shared-handle", "fuse:via-bridge", "fuse:fault-delivered", "fuse:straddles-eof", "fuse:at-eof",
@@ -678,6 +719,20 @@ func enumBlobs() []Case {
 		mk(2), // empty
 	}
 	return hx.Pick(append(all[:4:4], all[5]), all) // the empty layout last: it is a suspected defect
+}
+
+// catBlobs are the layouts of the directed `desync cat` set: tiny chunks, and content-defined chunks
+// large enough that a copy needs several buffers.
+func catBlobs() []Case {
+	small := Case{Sizes: gen.Sizes{Min: 1, Avg: 4, Max: 8}, Handles: 1, Goroutines: 1}
+	for i := 0; i < 7; i++ {
+		n := 3 + i%4
+		small.Pieces = append(small.Pieces, gen.Piece{Kind: "rand", Len: n, Seed: uint64(40 + i)})
+		small.Tiling = append(small.Tiling, n)
+	}
+	big := Case{Sizes: gen.Sizes{Min: 2048, Avg: 4096, Max: 8192}, Handles: 1, Goroutines: 1,
+		Pieces: []gen.Piece{{Kind: "rand", Len: 90_000, Seed: 77}, {Kind: "zero", Len: 20_000}, {Kind: "rand", Len: 30_000, Seed: 78}}}
+	return []Case{small, big}
 }
 
 // enumHistories: every (start position, seek target incl. -1 and Length+1, whence, read length)
@@ -796,6 +851,66 @@ func TestEnum(t *testing.T) {
 		}
 	}
 	hx.Note("enum_twin_cases", n)
+
+	// copies: every start position x way of copying x position of a store failure among the chunk requests
+	n = 0
+	for _, base := range enumBlobs() {
+		l := build(base)
+		for p0 := int64(0); p0 <= l.length; p0++ {
+			for _, via := range []string{"copy", "writerto", "read", "buffer", "copyn"} {
+				for k := 0; k <= len(l.spans); k++ {
+					c := base
+					c.FaultErr = k % 6
+					c.Ops = []Op{{Op: "seek", Off: p0, Abs: true}}
+					if k > 0 {
+						c.Ops = append(c.Ops, Op{Op: "fail", K: k})
+					}
+					cp := Op{Op: "copy", Via: via, Len: 1 + k%3}
+					if via == "copyn" {
+						cp.Len = int(l.length-p0) + 1 - k%3
+					}
+					c.Ops = append(c.Ops, cp, Op{Op: "read", Len: 2}, Op{Op: "copy", Via: via, Len: int(l.length) + 1}, Op{Op: "read", Len: 1},
+						Op{Op: "seek", Off: p0, Abs: true}, Op{Op: "copy", Via: via, Len: int(l.length) + 1})
+					n++
+					if !hx.Case(t, spec, c) {
+						return
+					}
+				}
+			}
+		}
+	}
+	hx.Note("enum_copy_cases", n)
+	hx.Exhaustive("small layouts: every (start position, io.Copy / WriteTo / Read-only copy / CopyBuffer / CopyN, store failure at the k-th chunk request or none), then continue and copy again")
+
+	// `desync cat`: whole blob, --offset only, --length only, both x no fault / chunk file removed at the
+	// first, a middle, the last chunk of the blob
+	if os.Getenv("VERIF_DESYNC_BIN") == "" {
+		hx.Note("cat_directed", "skipped: no VERIF_DESYNC_BIN")
+		return
+	}
+	n = 0
+	for bi, base := range catBlobs() {
+		l := build(base)
+		nch := len(l.spans)
+		mid := int64(l.spans[nch/2].Start)
+		for _, drop := range []int{-1, 0, nch / 2, nch - 1} {
+			c := base
+			c.Cat = []CatOp{
+				{Drop: drop},                                                                                // whole
+				{Off: 1, Drop: drop}, {Off: int(mid) + 1, Drop: drop}, {Off: int(l.length) - 1, Drop: drop}, // --offset only
+				{Len: int(l.length), Drop: drop}, {Len: int(mid) + 2, Drop: drop}, {Len: 1, Drop: drop}, // --length only
+				{Off: 1, Len: int(l.length) - 2, Drop: drop}, {Off: int(mid) - 1, Len: 3, Drop: drop}, // both
+			}
+			if bi > 0 { // the larger layout: the whole blob and one of each only
+				c.Cat = []CatOp{c.Cat[0], c.Cat[2], c.Cat[5], c.Cat[7]}
+			}
+			n += len(c.Cat)
+			if !hx.Case(t, spec, c) {
+				return
+			}
+		}
+	}
+	hx.Note("cat_directed", n)
 	hx.Exhaustive("one small layout: every same-ID entry with another size (adjacent to its original; larger only at the end) x every history of the first enumeration")
 }
 
